@@ -104,7 +104,7 @@ double Relative_Difference(double a, double b)
 
 bool Floats_Equal(double a, double b, double tol)
 {
-	if(Relative_Difference(a, b) < tol)
+	if(Relative_Difference(a, b) <= tol)
 		return true;
 	else
 		return false;
